@@ -1,4 +1,4 @@
-"""C07 -- import tidying never changes what a name means (R07.1-R07.18)."""
+"""C07 -- import tidying never changes what a name means (R07.1-R07.19)."""
 from __future__ import annotations
 
 import ast
